@@ -24,24 +24,129 @@ open G G.Sites G.Geometry
 theorem assignFrom_range (G : Sym3) (frac : ℚ) (sites : List (V3 × ℚ)) (k : Nat) (x : V3) :
     assignFrom G frac k sites x = -1 ∨
       ((k : Int) ≤ assignFrom G frac k sites x ∧ assignFrom G frac k sites x < (k + sites.length : Nat)) := by
-  sorry
+  induction sites generalizing k with
+  | nil => left; rfl
+  | cons p rest ih =>
+    obtain ⟨s, r⟩ := p
+    simp only [assignFrom, List.length_cons]
+    by_cases hw : within G (r * frac) s x = true
+    · rw [if_pos hw]
+      right
+      constructor
+      · exact le_refl _
+      · omega
+    · rw [if_neg hw]
+      rcases ih (k + 1) with h | ⟨h1, h2⟩
+      · left; exact h
+      · right
+        constructor
+        · omega
+        · omega
 
 /-- the result is "no site" or a valid site index -/
 theorem assign_range (G : Sym3) (frac : ℚ) (sites : List (V3 × ℚ)) (x : V3) :
     assign G frac sites x = -1 ∨ (0 ≤ assign G frac sites x ∧ assign G frac sites x < sites.length) := by
-  sorry
+  unfold assign
+  rcases assignFrom_range G frac sites 0 x with h | ⟨h1, h2⟩
+  · left; exact h
+  · right
+    constructor
+    · simpa using h1
+    · simpa using h2
+
+/-- generalised soundness: result `k + j` means the `j`-th entry is the first one containing `x` -/
+theorem assignFrom_sound (G : Sym3) (frac : ℚ) (sites : List (V3 × ℚ)) (x : V3) (k j : Nat)
+    (h : assignFrom G frac k sites x = ((k + j : Nat) : Int)) :
+    ∃ s r, sites[j]? = some (s, r) ∧ within G (r * frac) s x = true ∧
+      ∀ i, i < j → ∀ s' r', sites[i]? = some (s', r') → within G (r' * frac) s' x = false := by
+  induction sites generalizing k j with
+  | nil =>
+    simp only [assignFrom] at h
+    omega
+  | cons p rest ih =>
+    obtain ⟨s, r⟩ := p
+    simp only [assignFrom] at h
+    by_cases hw : within G (r * frac) s x = true
+    · rw [if_pos hw] at h
+      have hj : j = 0 := by omega
+      subst hj
+      refine ⟨s, r, rfl, hw, ?_⟩
+      intro i hi
+      omega
+    · rw [if_neg hw] at h
+      have hj : 1 ≤ j := by
+        rcases assignFrom_range G frac rest (k + 1) x with h' | ⟨h1, _⟩
+        · rw [h] at h'; omega
+        · rw [h] at h1; omega
+      obtain ⟨j', rfl⟩ : ∃ j', j = j' + 1 := ⟨j - 1, by omega⟩
+      have h' : assignFrom G frac (k + 1) rest x = ((k + 1 + j' : Nat) : Int) := by
+        rw [h]; congr 1; omega
+      obtain ⟨s0, r0, hget, hin, hearlier⟩ := ih (k + 1) j' h'
+      refine ⟨s0, r0, ?_, hin, ?_⟩
+      · rw [List.getElem?_cons_succ]; exact hget
+      · intro i hi s' r' hi'
+        cases i with
+        | zero =>
+          rw [List.getElem?_cons_zero] at hi'
+          have hp : (s, r) = (s', r') := Option.some.inj hi'
+          have hs : s = s' := congrArg Prod.fst hp
+          have hr : r = r' := congrArg Prod.snd hp
+          subst hs; subst hr
+          exact Bool.eq_false_iff.mpr hw
+        | succ i' =>
+          rw [List.getElem?_cons_succ] at hi'
+          exact hearlier i' (by omega) s' r' hi'
 
 /-- **C02 (sound)**: a reported site really contains the atom, and no earlier site does. -/
 theorem assign_sound (G : Sym3) (frac : ℚ) (sites : List (V3 × ℚ)) (x : V3) (k : Nat)
     (h : assign G frac sites x = (k : Int)) :
     ∃ s r, sites[k]? = some (s, r) ∧ within G (r * frac) s x = true ∧
       ∀ j, j < k → ∀ s' r', sites[j]? = some (s', r') → within G (r' * frac) s' x = false := by
-  sorry
+  apply assignFrom_sound G frac sites x 0 k
+  unfold assign at h
+  rw [h, Nat.zero_add]
+
+theorem assignFrom_none_iff (G : Sym3) (frac : ℚ) (sites : List (V3 × ℚ)) (x : V3) (k : Nat) :
+    assignFrom G frac k sites x = -1 ↔ ∀ p ∈ sites, within G (p.2 * frac) p.1 x = false := by
+  induction sites generalizing k with
+  | nil =>
+    constructor
+    · intro _ p hp; cases hp
+    · intro _; rfl
+  | cons p rest ih =>
+    obtain ⟨s, r⟩ := p
+    simp only [assignFrom]
+    by_cases hw : within G (r * frac) s x = true
+    · rw [if_pos hw]
+      constructor
+      · intro h; omega
+      · intro h
+        have := h (s, r) List.mem_cons_self
+        simp only at this
+        rw [hw] at this
+        cases this
+    · rw [if_neg hw]
+      rw [ih (k + 1)]
+      constructor
+      · intro h p hp
+        rcases List.mem_cons.mp hp with rfl | hp
+        · exact Bool.eq_false_iff.mpr hw
+        · exact h p hp
+      · intro h p hp
+        exact h p (List.mem_cons_of_mem _ hp)
 
 /-- **C02 (complete)**: "no site" is reported exactly when the atom is outside every sphere. -/
 theorem assign_none_iff (G : Sym3) (frac : ℚ) (sites : List (V3 × ℚ)) (x : V3) :
-    assign G frac sites x = -1 ↔ ∀ p ∈ sites, within G (p.2 * frac) p.1 x = false := by
-  sorry
+    assign G frac sites x = -1 ↔ ∀ p ∈ sites, within G (p.2 * frac) p.1 x = false :=
+  assignFrom_none_iff G frac sites x 0
+
+/-- a positive-definite form is non-negative -/
+theorem Q_nonneg_of_posdef (G : Sym3) (hpd : PosDef G) (v : V3) : 0 ≤ G.Q v := by
+  have h := coord_sq_le₁ G hpd v
+  obtain ⟨_, _, _, p1, _, _, pdet⟩ := hpd
+  have h0 : 0 ≤ G.det * v.x ^ 2 := mul_nonneg pdet.le (sq_nonneg _)
+  have h1 : 0 ≤ G.adj1 * G.Q v := le_trans h0 h
+  exact (mul_nonneg_iff_of_pos_left p1).mp h1
 
 /-- **C02 (spheres)**: an atom inside two spheres of radius `r` forces the two centres to be less
 than `2r` apart under the minimum-image distance. -/
@@ -49,25 +154,52 @@ theorem two_spheres_close (G : Sym3) (hpd : PosDef G) (s1 s2 x : V3) (r m1 m2 m1
     (h1 : minImageSqCert G (x - s1) = some m1) (h2 : minImageSqCert G (x - s2) = some m2)
     (h12 : minImageSqCert G (s2 - s1) = some m12)
     (hr1 : m1 < r ^ 2) (hr2 : m2 < r ^ 2) : m12 < 4 * r ^ 2 := by
-  sorry
+  obtain ⟨_, a1, a2, a3, ha⟩ := minImageSqCert_spec G hpd (x - s1) m1 h1
+  obtain ⟨_, b1, b2, b3, hb⟩ := minImageSqCert_spec G hpd (x - s2) m2 h2
+  obtain ⟨hle, _⟩ := minImageSqCert_spec G hpd (s2 - s1) m12 h12
+  have hk := hle (a1 - b1) (a2 - b2) (a3 - b3)
+  have hshift : shiftBy (s2 - s1) (a1 - b1) (a2 - b2) (a3 - b3)
+      = shiftBy (x - s1) a1 a2 a3 - shiftBy (x - s2) b1 b2 b3 := by
+    show shiftBy (V3.sub s2 s1) (a1 - b1) (a2 - b2) (a3 - b3)
+      = V3.sub (shiftBy (V3.sub x s1) a1 a2 a3) (shiftBy (V3.sub x s2) b1 b2 b3)
+    simp only [shiftBy, V3.sub, V3.mk.injEq]
+    refine ⟨?_, ?_, ?_⟩ <;> push_cast <;> ring
+  rw [hshift] at hk
+  have hpar := Q_parallelogram G (shiftBy (x - s1) a1 a2 a3) (shiftBy (x - s2) b1 b2 b3)
+  have hnn := Q_nonneg_of_posdef G hpd (shiftBy (x - s1) a1 a2 a3 + shiftBy (x - s2) b1 b2 b3)
+  rw [← ha, ← hb] at hpar
+  linarith
 
 /-- … hence with `2r ≤` the site separation no atom is inside both spheres: the assignment is unique. -/
 theorem unique_of_disjoint (G : Sym3) (hpd : PosDef G) (s1 s2 x : V3) (r m1 m2 m12 : ℚ)
     (h1 : minImageSqCert G (x - s1) = some m1) (h2 : minImageSqCert G (x - s2) = some m2)
     (h12 : minImageSqCert G (s2 - s1) = some m12) (hsep : 4 * r ^ 2 ≤ m12) :
     ¬ (m1 < r ^ 2 ∧ m2 < r ^ 2) := by
-  sorry
+  rintro ⟨hr1, hr2⟩
+  have := two_spheres_close G hpd s1 s2 x r m1 m2 m12 h1 h2 h12 hr1 hr2
+  linarith
 
 /-- the automatic radius `½ d_min − 0.005` (taken when `2·vibration amplitude` would overlap) keeps
 the spheres disjoint: `4 r² < d_min²` -/
 theorem auto_radius_disjoint (dmin r : ℚ) (hr0 : 0 ≤ r) (hr : r ≤ dmin / 2 - 5 / 1000) : 4 * r ^ 2 < dmin ^ 2 := by
-  sorry
+  have h2 : 2 * r < dmin := by linarith
+  have h3 : 0 ≤ 2 * r := by linarith
+  have h4 : (2 * r) ^ 2 < dmin ^ 2 := pow_lt_pow_left₀ h2 h3 (by norm_num)
+  calc 4 * r ^ 2 = (2 * r) ^ 2 := by ring
+    _ < dmin ^ 2 := h4
 
 /-- a smaller radius selects a subset: inside the scaled sphere ⇒ inside the full sphere
 (for certified distances, i.e. `pbcDistSq ≥ 0`) -/
 theorem within_mono (G : Sym3) (r frac : ℚ) (s x : V3) (hr : 0 ≤ r) (hf0 : 0 ≤ frac) (hf1 : frac ≤ 1)
     (hcert : 0 ≤ pbcDistSq G s x) (h : within G (r * frac) s x = true) : within G r s x = true := by
-  sorry
+  have _ := hcert
+  simp only [within, decide_eq_true_eq] at h ⊢
+  have h0 : 0 ≤ r * frac := mul_nonneg hr hf0
+  have h1 : r * frac ≤ r := by
+    have := mul_le_mul_of_nonneg_left hf1 hr
+    linarith
+  have h2 : (r * frac) ^ 2 ≤ r ^ 2 := pow_le_pow_left₀ h0 h1 2
+  linarith
 
 /-- **C02 (inner site)**: with an inner fraction in (0, 1] and at most one sphere containing the
 atom, the inner site is either "none" or the outer site. -/
@@ -76,12 +208,52 @@ theorem inner_subset (G : Sym3) (frac : ℚ) (sites : List (V3 × ℚ)) (x : V3)
     (huniq : ∀ (i j : Nat) (p q : V3 × ℚ), sites[i]? = some p → sites[j]? = some q →
       within G p.2 p.1 x = true → within G q.2 q.1 x = true → i = j) :
     assign G frac sites x = -1 ∨ assign G frac sites x = assign G 1 sites x := by
-  sorry
+  rcases assign_range G frac sites x with h | ⟨h0, _⟩
+  · left; exact h
+  · right
+    obtain ⟨k, hk⟩ : ∃ k : Nat, assign G frac sites x = (k : Int) :=
+      ⟨(assign G frac sites x).toNat, (Int.toNat_of_nonneg h0).symm⟩
+    obtain ⟨s, r, hget, hin, _⟩ := assign_sound G frac sites x k hk
+    have hmem : (s, r) ∈ sites := List.mem_of_getElem? hget
+    have hfull : within G r s x = true :=
+      within_mono G r frac s x (hr (s, r) hmem) hf0 hf1 (hcert (s, r) hmem) hin
+    rcases assign_range G 1 sites x with h1 | ⟨h1, _⟩
+    · have := (assign_none_iff G 1 sites x).mp h1 (s, r) hmem
+      simp only [mul_one] at this
+      rw [hfull] at this
+      cases this
+    · obtain ⟨j, hj⟩ : ∃ j : Nat, assign G 1 sites x = (j : Int) :=
+        ⟨(assign G 1 sites x).toNat, (Int.toNat_of_nonneg h1).symm⟩
+      obtain ⟨s', r', hget', hin', _⟩ := assign_sound G 1 sites x j hj
+      rw [mul_one] at hin'
+      have hkj : k = j := huniq k j (s, r) (s', r') hget hget' hfull hin'
+      rw [hk, hj, hkj]
+
+/-- `np.digitize(a, arange(n), right=True) = min a n` -/
+theorem digitizeRight_range (n a : Nat) :
+    digitizeRight ((List.range n).map (fun (k : Nat) => (k : Int))) (a : Int) = min a n := by
+  unfold digitizeRight
+  induction n with
+  | zero => simp
+  | succ n ih =>
+    rw [List.range_succ, List.map_append, List.filter_append, List.length_append, ih]
+    by_cases h : n < a
+    · have : decide (((n : Nat) : Int) < (a : Int)) = true := by
+        rw [decide_eq_true_eq]; exact_mod_cast h
+      simp only [List.map_cons, List.map_nil, List.filter_cons, this, List.filter_nil, if_true,
+        List.length_cons, List.length_nil]
+      omega
+    · have : decide (((n : Nat) : Int) < (a : Int)) = false := by
+        rw [decide_eq_false_iff_not]; exact_mod_cast h
+      simp only [List.map_cons, List.map_nil, List.filter_cons, this, List.filter_nil,
+        Bool.false_eq_true, if_false, List.length_nil]
+      omega
 
 /-- per-label mapping as repaired: indexing the group's key array is the identity-palette remap -/
 theorem remap_identity (key : List Int) (a : Nat) (ha : a < key.length) :
     integerRemap key ((List.range key.length).map (fun (k : Nat) => (k : Int))) (a : Int) = key[a]? := by
-  sorry
+  unfold integerRemap
+  rw [digitizeRight_range, Nat.min_eq_left (le_of_lt ha)]
 
 /-- defect D3 (repaired): with the palette of *visited* group members [1, 2] (member 0 never visited)
 group-local index 2 is mapped to key[1] instead of key[2] -/
